@@ -14,7 +14,7 @@ CONSTANTS
   PrefClass = "RangeError"
   PrefRest = "t1"
   Stamps = {999}
-  MaxNow = 2
+  MaxNow = 0
   Shapes = {"ok", "short"}
   LevelKinds = {"node", "module", "param"}
   Kinds = {"updateEvent", "updateItem"}
